@@ -1,6 +1,7 @@
-From Coq Require Import ZArith List.
+From Coq Require Import ZArith List Arith.
 From Cspuz Require Import Lib.PyErr Core.Expr Core.Program Graph.GraphModel Graph.Cycle
-  Graph.CycleMain Graph.LineGraph Graph.CyclePrim Graph.CycleFrame Graph.CycleSpec Graph.CycleExamples.
+  Graph.CycleMain Graph.LineGraph Graph.CyclePrim Graph.CycleFrame Graph.CycleSpec Graph.CycleExamples
+  Graph.CycleList Graph.CycleListProofs Graph.CycleListIndex Graph.CycleListExact.
 
 (* ---- non-primitive _active_edges_single_cycle (any multigraph, self-loops included) *)
 
@@ -149,3 +150,89 @@ Theorem single_path_b_spec : forall g A,
   wf_graph g = true -> (single_path_b g A = true <-> single_path g A).
 Proof. exact single_path_b_spec. Qed.
 Print Assumptions single_path_b_spec.
+
+(* ---- the specification restated with explicit lists.
+   joins g e a b : edge number e has the endpoints a and b (either orientation);
+   covers g A es : the active edges of g are exactly the members of es *)
+
+(* A non-empty: "every vertex has active degree 0 or 2, and the active edges are
+   connected" holds exactly when there is a cyclic list v0,e0,v1,e1,...,v(k-1),e(k-1)
+   (k >= 1) of pairwise distinct vertices and pairwise distinct edges, e_i joining
+   v_i and v_((i+1) mod k), made of exactly the active edges (k = 1: a self-loop,
+   k = 2: two parallel edges) *)
+Theorem cycle_list_iff : forall g A,
+  wf_graph g = true -> (exists k, k < length (edges g) /\ A k = true) ->
+  (((forall v, v < nv g -> degree g A v = 0 \/ degree g A v = 2) /\ edge_connected g A)
+   <->
+   (exists vs es, length es = length vs /\ 1 <= length vs /\ NoDup vs /\ NoDup es /\
+      (forall i, i < length vs ->
+         joins g (nth i es 0) (nth i vs 0) (nth (S i mod length vs) vs 0)) /\
+      (forall e, e < length (edges g) -> (A e = true <-> In e es)))).
+Proof. exact cycle_seq_iff. Qed.
+Print Assumptions cycle_list_iff.
+
+(* "active degrees at most 2, connected, exactly two vertices of degree 1" holds
+   exactly when there is an open list v0,e0,v1,...,e(k-1),vk (k >= 1) of pairwise
+   distinct vertices and pairwise distinct edges, e_i joining v_i and v_(i+1),
+   made of exactly the active edges *)
+Theorem path_list_iff : forall g A,
+  wf_graph g = true ->
+  (((forall v, v < nv g -> degree g A v <= 2) /\ edge_connected g A /\ num_deg1 g A = 2)
+   <->
+   (exists vs es, length vs = S (length es) /\ 1 <= length es /\ NoDup vs /\ NoDup es /\
+      (forall i, i < length es -> joins g (nth i es 0) (nth i vs 0) (nth (S i) vs 0)) /\
+      (forall e, e < length (edges g) -> (A e = true <-> In e es)))).
+Proof. exact path_seq_iff. Qed.
+Print Assumptions path_list_iff.
+
+(* the same with the lists given as steps (e_i, v_(i+1)) (CycleList.chain) *)
+Theorem cycle_list_steps : forall g A,
+  wf_graph g = true -> (exists k, k < length (edges g) /\ A k = true) ->
+  (((forall v, v < nv g -> degree g A v = 0 \/ degree g A v = 2) /\ edge_connected g A)
+   <-> cycle_list g A).
+Proof. exact CycleListProofs.cycle_list_iff. Qed.
+Print Assumptions cycle_list_steps.
+
+Theorem path_list_steps : forall g A,
+  wf_graph g = true -> (simple_path g A <-> path_list g A).
+Proof. exact CycleListProofs.path_list_iff. Qed.
+Print Assumptions path_list_steps.
+
+(* the specifications used by the theorems above, in list form *)
+Theorem single_cycle_seq : forall g A,
+  wf_graph g = true -> (single_cycle g A <-> (no_active g A \/ cycle_seq g A)).
+Proof. exact single_cycle_seq. Qed.
+Print Assumptions single_cycle_seq.
+
+Theorem single_path_seq : forall g A,
+  wf_graph g = true -> (single_path g A <-> (no_active g A \/ path_seq g A)).
+Proof. exact single_path_seq. Qed.
+Print Assumptions single_path_seq.
+
+(* cycle_exact / cycle_primitive / path_primitive with the list formulation *)
+Theorem cycle_exact_list : forall gsem st acts g en st' passed,
+  wf_graph g = true -> 1 <= nv g -> length (edges g) <= length acts ->
+  flags_ok gsem st en acts -> in_bounds en st = true ->
+  post_cycle st acts g false = Ok (st', passed) ->
+  ((exists en', extends_sat gsem st st' en en') <->
+   (no_active g (pattern gsem en acts) \/ cycle_seq g (pattern gsem en acts))).
+Proof. exact cycle_exact_list. Qed.
+Print Assumptions cycle_exact_list.
+
+Theorem cycle_primitive_list : forall st acts g en st' passed,
+  wf_graph g = true -> length acts = length (edges g) ->
+  flags_ok gsem_c06 st en acts -> in_bounds en st = true ->
+  post_cycle st acts g true = Ok (st', passed) ->
+  ((exists en', extends_sat gsem_c06 st st' en en') <->
+   (no_active g (pattern gsem_c06 en acts) \/ cycle_seq g (pattern gsem_c06 en acts))).
+Proof. exact cycle_primitive_list. Qed.
+Print Assumptions cycle_primitive_list.
+
+Theorem path_primitive_list : forall st acts g en st' passed,
+  wf_graph g = true -> length acts = length (edges g) ->
+  flags_ok gsem_c06 st en acts -> in_bounds en st = true ->
+  post_path st acts g true = Ok (st', passed) ->
+  ((exists en', extends_sat gsem_c06 st st' en en') <->
+   (no_active g (pattern gsem_c06 en acts) \/ path_seq g (pattern gsem_c06 en acts))).
+Proof. exact path_primitive_list. Qed.
+Print Assumptions path_primitive_list.
